@@ -18,6 +18,7 @@ import (
 // parent's executions and all subtrees is exactly the tree the in-process explorer walks.
 
 type task struct {
+	Whole    bool  `json:"w,omitempty"` // explore the whole tree in the worker (quiet process for memory oracles)
 	From     int   `json:"f,omitempty"` // From<To: explore the children Prefix+[alt] for alt in [From,To)
 	To       int   `json:"t,omitempty"`
 	Prefix   []int `json:"p"`
@@ -74,7 +75,9 @@ func Serve(body Body, opt Options, in io.Reader, out io.Writer) {
 			e.st.Counters = map[string]int64{}
 			e.st.PointsByKind = map[string]int64{}
 			e.st.BySig = map[string]int64{}
-			if t.To > t.From {
+			if t.Whole {
+				e.explore(nil, 0)
+			} else if t.To > t.From {
 				for alt := t.From; alt < t.To; alt++ {
 					child := append(append([]int(nil), t.Prefix...), alt)
 					e.explore(child, t.Cost)
@@ -329,6 +332,10 @@ func RunSharded(body Body, opt Options, argv []string, env []string) Stats {
 	}
 	func() {
 		defer close(tasks)
+		if opt.Whole {
+			tasks <- task{Whole: true, Deadline: dl, Bound: opt.Bound}
+			return
+		}
 		front(nil, 0)
 	}()
 	wg.Wait()
